@@ -22,8 +22,8 @@ Ties, every run:
  3. random decoder probes and random paths for splitext/get_file_type, M = code and S on the code's answer
     (acceptance and decoded meaning); every key of every module — every string-valued one in particular — is also fed a
     fixed list of values that are not strings (booleans, integers, floats, lists, objects, null), and every rejection is
-    judged by its exception class: anything but the decoders' ValueError must be covered by the trigger of recorded
-    finding rejection-not-a-value-error (Spec/CliSpec.v trigger_escape), else it is a violation;
+    judged by its exception class: anything but the decoders' ValueError is a violation (Model/CliCases.v probe_escape;
+    proved of M for all values in Proofs/C19/Reject.v);
  4. determinism (differential execution, not proof): same command under other PYTHONHASHSEEDs, with progress
     bar / log level toggled, and inside one interpreter after k other conversions in random order — byte-identical.
 """
@@ -33,7 +33,6 @@ import common as C
 import gen_tables, gen_c19 as G
 
 FINDINGS = {2: "undocumented-values-accepted", 4: "documented-values-rejected"}
-ESCAPE_FINDING = "rejection-not-a-value-error"
 # values that are not strings, fed to EVERY configuration key of every module on every run (see nonstring_probes)
 NONSTRINGS = [None, True, False, 0, 1, -7, 23, 2 ** 70, 0.0, 2.5, -1.5, 1e300, float("nan"), float("inf"), [], ["left"], [1, "a"], [[]],
               {}, {"a": 1}, {"value": "left"}, [None], [True]]
@@ -897,8 +896,8 @@ def main():
     if errors: run.log("translator failed closed:", errors)
     if changed: run.log("tables regenerated from source:", changed)
     targets = ["Proofs/C19/Tables.vo", "Proofs/C19/Plan.vo", "Proofs/C19/Types.vo", "Proofs/C19/Accept.vo", "Proofs/C19/AcceptFont.vo",
-               "Proofs/C19/AcceptColor.vo", "Proofs/C19/AcceptAll.vo", "Proofs/C19/Args.vo", "Proofs/C19/Pipeline.vo", "Proofs/C19/SpecPlan.vo",
-               "Proofs/C19/Order.vo", "Proofs/C19/Main.vo", "Proofs/C19/Reject.vo", "Model/CliCases.vo"]
+               "Proofs/C19/AcceptColor.vo", "Proofs/C19/AcceptAll.vo", "Proofs/C19/Reject.vo", "Proofs/C19/Args.vo", "Proofs/C19/Pipeline.vo", "Proofs/C19/SpecPlan.vo",
+               "Proofs/C19/Order.vo", "Proofs/C19/Main.vo", "Model/CliCases.vo"]
     ok, log = run.build(targets, clean=(run.tier == "thorough"))
     if not ok and errors: C.make(["Model/CliCases.vo"], 1500)
     proofs_ok = ok and run.theorems()
@@ -1067,7 +1066,7 @@ def body(run, proofs_ok, root, n_cases, n_probes, n_paths, quick):
     res = C.coqc_many([p for _, p, _ in files], 1500)
     m_bad = {"cli": [], "probe": [], "type": [], "inj": []}; s_bad = {"cli": [], "probe": [], "type": [], "inj": []}; excused = {"cli": {}, "probe": {}}
     unmeant = {"cli": [], "probe": []}
-    escaped = []; escape_excused = []        # probes rejected by another exception class than ValueError: uncovered / covered by trigger_escape
+    escaped = []                             # probes rejected by another exception class than ValueError
     broken = []
     for kind, p, idxs in files:
         rcq, out = res[p]; flat = " ".join(out.split())
@@ -1095,13 +1094,12 @@ def body(run, proofs_ok, root, n_cases, n_probes, n_paths, quick):
                 if len(codes) != len(idxs): broken.append((p, "escape count")); continue
                 for i, cde in zip(idxs, codes):
                     if cde == 7: escaped.append(i)
-                    elif cde == 5: escape_excused.append(i)
                     elif cde != 0: broken.append((p, f"escape code {cde}"))
     C.clean_cases("Cases_C19_")
     run.log(f"Coq: command lines M/code mismatches {len(m_bad['cli'])}, S failures {len(s_bad['cli'])}, not the prescribed plan {len(unmeant['cli'])}, excused by findings {len(excused['cli'])}; "
             f"runs with a failing stage: mismatches {len(m_bad['inj'])}, S failures {len(s_bad['inj'])}; "
             f"probes mismatches {len(m_bad['probe'])}, S failures {len(s_bad['probe'])}, not the documented meaning {len(unmeant['probe'])}, excused {len(excused['probe'])}, "
-            f"rejected by another class than ValueError {len(escaped)} uncovered + {len(escape_excused)} covered by {ESCAPE_FINDING}; "
+            f"rejected by another class than ValueError {len(escaped)}; "
             f"paths mismatches {len(m_bad['type'])}, S failures {len(s_bad['type'])}; broken files {len(broken)}")
 
     # ---- determinism: other hash seeds, progress/log toggles, histories within one interpreter
@@ -1216,8 +1214,7 @@ def body(run, proofs_ok, root, n_cases, n_probes, n_paths, quick):
     for i in escaped[:5]:
         s_found = True
         sec, field, K, v = probes[i]
-        run.violation(f"configuration key {sec}.{field}: the value {v!r} is not rejected by the decoder's ValueError but escapes as {answers[i]} "
-                      f"and no recorded finding covers it", dict(kind="S-on-code", section=sec, key=field, value=repr(v), code=G.decode_key(sec, field, v)))
+        run.violation(f"configuration key {sec}.{field}: the value {v!r} is not rejected by the decoder's ValueError but escapes as {answers[i]}", dict(kind="S-on-code", section=sec, key=field, value=repr(v), code=G.decode_key(sec, field, v)))
     for i in s_bad["type"][:5]:
         s_found = True
         run.violation(f"type inference on (type={paths[i][0]!r}, path={paths[i][1]!r}) contradicts the specification", dict(kind="S-on-code", given=paths[i][0], path=paths[i][1]))
@@ -1251,15 +1248,6 @@ def body(run, proofs_ok, root, n_cases, n_probes, n_paths, quick):
                 run.violation(f"finding {fid} fires but is not listed", dict(kind="unlisted-finding", id=fid, example=ex))
         else:
             stale.append(fid + ": no generated input triggers it any more")
-    if escape_excused:
-        by_key = {}
-        for i in escape_excused: by_key.setdefault(f"{probes[i][0]}.{probes[i][1]}", []).append(i)
-        ex = "; ".join(f"{k} = {probes[v[0]][3]!r} -> {answers[v[0]]}" for k, v in sorted(by_key.items()))
-        if not run.known(ESCAPE_FINDING, f"{len(escape_excused)} probes, {ex}"[:300]):
-            s_found = True
-            run.violation(f"finding {ESCAPE_FINDING} fires but is not listed", dict(kind="unlisted-finding", id=ESCAPE_FINDING, example=ex))
-    else:
-        stale.append(ESCAPE_FINDING + ": no generated input triggers it any more")
     rcf, outf = C.coqc(C.COQ + "/Findings/C19.v", 600)
     if rcf != 0: stale.append("Findings/C19.v no longer compiles")
     if stale: run.cov["stale_findings"] = stale
@@ -1331,7 +1319,7 @@ def body(run, proofs_ok, root, n_cases, n_probes, n_paths, quick):
         both_with_file_only_section=sum(1 for c in cases if c.get("file_only")), both_with_shared_section=sum(1 for c in cases if c.get("shared")),
         with_filters=sum(1 for c in cases if c["filters"]), probes=len(probes), probe_excused=len(excused["probe"]), paths=len(paths),
         determinism_reruns=len(djobs), history_conversions=hist_n, history_interpreters=n_hist,
-        findings_fired=dict({k: len(v) for k, v in fired.items()}, **({ESCAPE_FINDING: len(escape_excused)} if escape_excused else {})),
+        findings_fired={k: len(v) for k, v in fired.items()},
         nonstring_values=[repr(v) for v in NONSTRINGS],
         nonstring_probe_outcomes={f"{sec}.{field}" + (" (string-valued)" if string_valued(sec, field) else ""):
                                   {a: sum(1 for p_, a_ in zip(probes, answers) if p_[:2] == (sec, field) and not isinstance(p_[3], str) and a_ == a)
